@@ -74,6 +74,9 @@ func (cs *c15Case) produce(withMeta bool) ([]byte, error, string) {
 		alpha = "binary" // many fully transparent pixels with colour underneath, kept by Exact
 	}
 	src := imgs.Make(17, 9, "noise", alpha, cs.Seed)
+	if strings.Contains(cs.Kind, "-target") {
+		src = imgs.Make(48, 32, "noise", alpha, cs.Seed) // large enough for the size / PSNR search to iterate
+	}
 	if strings.HasPrefix(cs.Kind, "anim") {
 		var out []byte
 		var err error
@@ -114,6 +117,16 @@ func (cs *c15Case) produce(withMeta bool) ([]byte, error, string) {
 	o := webp.DefaultOptions()
 	o.Lossless = strings.HasPrefix(cs.Kind, "lossless")
 	o.Exact = strings.HasSuffix(cs.Kind, "-exact")
+	switch {
+	// option sets under which the encoder budgets, searches or switches code paths: none of it may
+	// look at the metadata
+	case strings.HasSuffix(cs.Kind, "-targetsize"):
+		o.TargetSize, o.Pass = 900, 6
+	case strings.HasSuffix(cs.Kind, "-targetpsnr"):
+		o.TargetPSNR, o.Pass = 36, 6
+	case strings.HasSuffix(cs.Kind, "-m6"):
+		o.Method, o.Quality = 6, 100
+	}
 	if withMeta {
 		if cs.ICC != "absent" {
 			o.ICC = icc
@@ -233,11 +246,12 @@ var _ image.Image
 
 func init() {
 	registerCases[c15Case]("C15", "exploration",
-		"full product of blob alphabet {absent, nil, empty, 1, 2, 3 bytes, chunk-look-alike, 4095, 4096, 65537 bytes} for each of ICC, EXIF, XMP x 8 output kinds (lossy, lossless, lossy+alpha, lossless+alpha, both again with Exact on a picture with colour under transparent pixels, 1-frame and 2-frame AnimEncoder); blobs read back byte-exact via riffwalk, mux.GetChunk and animation.DecodeBytes; flags = chunk presence; bitstream/ALPH payloads and decoded pixels identical to the no-metadata output",
+		"full product of blob alphabet {absent, nil, empty, 1, 2, 3 bytes, chunk-look-alike, 4095, 4096, 65537 bytes} for each of ICC, EXIF, XMP x 12 output kinds (lossy, lossless, lossy+alpha, lossless+alpha, both again with Exact on a picture with colour under transparent pixels, 1-frame and 2-frame AnimEncoder, lossy with a TargetSize and with a TargetPSNR search, Method 6 Quality 100 in both codecs); blobs read back byte-exact via riffwalk, mux.GetChunk and animation.DecodeBytes; flags = chunk presence; bitstream/ALPH payloads and decoded pixels identical to the no-metadata output",
 		[]string{"worker count pinned to 1, pools never reuse"},
 		nil,
 		func(e *fw.Env) func(c *choice.Ctx) caseI {
-			kinds := []string{"lossy", "lossless", "lossy-alpha", "lossless-alpha", "lossy-alpha-exact", "lossless-alpha-exact", "anim1", "anim2"}
+			kinds := []string{"lossy", "lossless", "lossy-alpha", "lossless-alpha", "lossy-alpha-exact", "lossless-alpha-exact", "anim1", "anim2",
+				"lossy-targetsize", "lossy-targetpsnr", "lossless-m6", "lossy-m6"}
 			names := c15BlobNames
 			if e.Quick() {
 				names = []string{"absent", "nil", "empty", "b1", "b2", "chunklike", "b4095"}
